@@ -17,6 +17,7 @@ mod rx_derive;
 mod refparse;
 mod validate;
 mod rx_build;
+mod rx_import;
 
 fn main() {
     let args: Vec<String> = std::env::args().collect();
@@ -40,6 +41,7 @@ fn main() {
         "content" => rx_content::run(&args[2], &args[3], &opts),
         "derive" => rx_derive::run(&args[2], &args[3], &opts),
         "build" => rx_build::run(&args[2], &args[3], &opts),
+        "import" => rx_import::run(&args[2], &args[3], &opts),
         "cache" => rx_cache::run(&args[2], &args[3], &opts),
         "widths" => rx_font::run_widths(&args[2], &args[3], &opts),
         "cmap" => rx_font::run_cmap(&args[2], &args[3], &opts),
